@@ -33,7 +33,10 @@ fn main() {
         }
         "runfile" => {
             let src = std::fs::read_to_string(&args[2]).unwrap();
-            let out = kv::kx::run(&src, &kv::kx::RunOpts { limit_ms: Some(2000), ..Default::default() });
+            let limit = std::env::var("KV_LIMIT_MS").ok().and_then(|v| v.parse().ok()).unwrap_or(2000u64);
+            let t0 = std::time::Instant::now();
+            let out = kv::kx::run(&src, &kv::kx::RunOpts { limit_ms: Some(limit), ..Default::default() });
+            println!("elapsed: {:?}", t0.elapsed());
             println!("stdout:\n{}outcome: {:?}\nstacks: {:?}", out.stdout, out.outcome, out.stacks);
         }
         "verify" => {
